@@ -11,6 +11,24 @@ RRes(c, cursor, n) == SubSeq(c, cursor + 1, cursor + Min2(n, Len(c) - cursor))
 ARes(c, cursor) == SubSeq(c, cursor + 1, Len(c))
 LRes(c, cursor) == LET p == NextNLc(c, cursor, Len(c)) IN IF p = 0 THEN ARes(c, cursor) ELSE SubSeq(c, cursor + 1, p)
 Flatten(rs) == FoldLeft(LAMBDA a, b : a \o b, <<>>, rs)
+\* read_line / read_to_string return text: a piece of the content that is not well-formed UTF-8 (no overlong forms, no
+\* surrogates, nothing above U+10FFFF, no sequence cut short) cannot be returned as text without changing it
+WellFormedUtf8(bs) ==
+  LET step(acc, b) ==
+        IF ~acc.ok THEN acc
+        ELSE IF acc.need = 0 THEN
+          (CASE b < 128 -> acc
+             [] b >= 194 /\ b <= 223 -> [acc EXCEPT !.need = 1, !.cp = b - 192, !.min = 128]
+             [] b >= 224 /\ b <= 239 -> [acc EXCEPT !.need = 2, !.cp = b - 224, !.min = 2048]
+             [] b >= 240 /\ b <= 244 -> [acc EXCEPT !.need = 3, !.cp = b - 240, !.min = 65536]
+             [] OTHER -> [acc EXCEPT !.ok = FALSE])
+        ELSE IF b < 128 \/ b > 191 THEN [acc EXCEPT !.ok = FALSE]
+        ELSE LET cp == acc.cp * 64 + (b - 128)
+             IN IF acc.need > 1 THEN [acc EXCEPT !.need = acc.need - 1, !.cp = cp]
+                ELSE IF cp < acc.min \/ cp > 1114111 \/ (cp >= 55296 /\ cp <= 57343) THEN [acc EXCEPT !.ok = FALSE]
+                ELSE [acc EXCEPT !.need = 0, !.cp = 0]
+      r == FoldLeft(step, [ok |-> TRUE, need |-> 0, cp |-> 0, min |-> 0], bs)
+  IN r.ok /\ r.need = 0
 (* writing: what a file holds after a program that opened it with a mode, wrote some byte   *)
 (* strings and ended normally (handles are flushed and closed at exit)                       *)
 (*   r: must exist (open fails otherwise); w: create or truncate; a: create or append;       *)
